@@ -204,6 +204,8 @@ func funcSplitVec(chunk []KVPair, args []Expression, ctx *ExecuteCtx) ([]any, er
 func funcJoinVec(chunk []KVPair, args []Expression, ctx *ExecuteCtx) ([]any, error) {
 	ret := make([]any, len(chunk))
 	for i := 0; i < len(chunk); i++ {
+		// evaluated row by row, so the per-row field results must not leak
+		ctx.ClearRowCache()
 		row, err := funcJoin(chunk[i], args, ctx)
 		if err != nil {
 			return nil, err
@@ -270,6 +272,8 @@ func funcL2DistanceVec(chunk []KVPair, args []Expression, ctx *ExecuteCtx) ([]an
 func funcFloatListVec(chunk []KVPair, args []Expression, ctx *ExecuteCtx) ([]any, error) {
 	ret := make([]any, len(chunk))
 	for i := 0; i < len(chunk); i++ {
+		// evaluated row by row, so the per-row field results must not leak
+		ctx.ClearRowCache()
 		row, err := funcFloatList(chunk[i], args, ctx)
 		if err != nil {
 			return nil, err
@@ -282,6 +286,8 @@ func funcFloatListVec(chunk []KVPair, args []Expression, ctx *ExecuteCtx) ([]any
 func funcIntListVec(chunk []KVPair, args []Expression, ctx *ExecuteCtx) ([]any, error) {
 	ret := make([]any, len(chunk))
 	for i := 0; i < len(chunk); i++ {
+		// evaluated row by row, so the per-row field results must not leak
+		ctx.ClearRowCache()
 		row, err := funcIntList(chunk[i], args, ctx)
 		if err != nil {
 			return nil, err
@@ -295,6 +301,7 @@ func funcToListVec(chunk []KVPair, args []Expression, ctx *ExecuteCtx) ([]any, e
 	if len(args) == 0 || len(chunk) == 0 {
 		return nil, nil
 	}
+	ctx.ClearRowCache()
 	first, err := args[0].Execute(chunk[0], ctx)
 	if err != nil {
 		return nil, err
